@@ -4,7 +4,7 @@
 From Coq Require Import List Bool Arith String Permutation.
 Import ListNotations.
 Require Import MV.Model.Orch MV.Model.Options MV.Model.Identity MV.Model.Grouping MV.Model.PlannerA MV.Model.PlannerO.
-Require Import MV.Spec.GroupingSpec MV.Spec.PlannerASpec.
+Require Import MV.Spec.OptionsSpec MV.Spec.GroupingSpec MV.Spec.PlannerASpec.
 Open Scope list_scope.
 Open Scope nat_scope.
 
@@ -41,28 +41,53 @@ Definition input_of (defs : list odef) (f : feat) (i : oin) : feat + nat :=
   | S e => inr (S e)
   end.
 
-(* the nodes st are CLOSED: every stored feature has a definition, all merges of its declared inputs succeed, its parents
-   are exactly the merged input features (in some order of the declaration list) and each of them is stored (up to ==) *)
-Definition closed_nodes (defs : list odef) (st : list rnode) : Prop :=
-  forall r, In r st -> exists d, odef_of defs (f_name (rf r)) = Some d /\ rgrp r = od_grp d /\ rcfw r = od_cfw d /\
-    exists ins, Permutation ins (od_ins d) /\
-      Forall2 (fun i p => input_of defs (rf r) i = inl p) ins (rparents r) /\
-      forall p, In p (rparents r) -> exists r', In r' st /\ feq p (rf r') = true.
+(* ---------- well-formed declarations ---------- *)
+(* an options dictionary as Python can build it and compare it: pairwise different keys, every value equal to itself *)
+Definition refl_dictb (d : dict) : bool := nodupkb (dkeys d) && forallb (fun kv => py_eq (snd kv) (snd kv)) d.
+Definition ogoodb (s : ostate) : bool := refl_dictb (og s) && refl_dictb (oc s).
+Definition decl_ok (defs : list odef) (rq : list oreq) : Prop :=
+  (forall d i, In d defs -> In i (od_ins d) -> ogoodb (oi_opt i) = true) /\ (forall r, In r rq -> ogoodb (rq_opt r) = true).
 
-(* r is needed by the request: a requested feature, or (transitively) an input of one *)
-Inductive needed (st : list rnode) (rq : list feat) : rnode -> Prop :=
-  | needed_req : forall r, In r st -> In (rf r) rq -> rreq r = true -> needed st rq r
-  | needed_in : forall r r' p, needed st rq r -> In p (rparents r) -> In r' st -> feq p (rf r') = true -> needed st rq r'.
-
-(* no two stored features are equal (Feature.__eq__): every instance has ONE node *)
-Fixpoint nodup_feq (l : list feat) : Prop :=
-  match l with [] => True | x :: t => (forall y, In y t -> feq x y = false) /\ nodup_feq t end.
+(* acyclic definitions: distinct names, distinct input names per feature, every input and every requested name defined,
+   and the names can be numbered below the number of definitions such that inputs get smaller numbers (a topological order) *)
+Definition odefs_ok (defs : list odef) (rq : list oreq) : Prop :=
+  NoDup (map od_name defs) /\
+  (forall d, In d defs -> NoDup (map oi_name (od_ins d))) /\
+  (forall d i, In d defs -> In i (od_ins d) -> exists d', odef_of defs (oi_name i) = Some d') /\
+  (forall r, In r rq -> exists d, odef_of defs (rq_name r) = Some d) /\
+  exists rk : string -> nat, (forall d, In d defs -> rk (od_name d) < List.length defs) /\
+                             forall d i, In d defs -> In i (od_ins d) -> rk (oi_name i) < rk (od_name d).
+(* one compute framework *)
+Definition one_cfw (defs : list odef) : Prop := forall d e, In d defs -> In e defs -> od_cfw d = od_cfw e.
 
 (* iord is an iteration order of the input declarations *)
 Definition iord_ok (iord : nat -> list oin -> list oin) : Prop := forall k l, Permutation (iord k l) l.
 
-(* acyclic definitions: inputs have a smaller rank *)
-Definition odefs_ok (defs : list odef) : Prop :=
-  NoDup (map od_name defs) /\
-  (forall d i, In d defs -> In i (od_ins d) -> exists d', odef_of defs (oi_name i) = Some d') /\
-  exists rk : string -> nat, forall d i, In d defs -> In i (od_ins d) -> rk (oi_name i) < rk (od_name d).
+(* ---------- the dependency closure of a request ---------- *)
+(* the option INSTANCES a request needs: the requested features, and for every needed feature the features that
+   Features.__init__ makes of its declared inputs (own options merged with the consumer's options) *)
+Inductive inst (defs : list odef) (rq : list feat) : feat -> Prop :=
+  | inst_req : forall f, In f rq -> inst defs rq f
+  | inst_in : forall f d i p, inst defs rq f -> odef_of defs (f_name f) = Some d -> In i (od_ins d) ->
+                              input_of defs f i = inl p -> inst defs rq p.
+
+(* p is stored in st: as it is, or an equal feature (Feature.__eq__) is *)
+Definition holds (st : list rnode) (p : feat) : Prop := exists r, In r st /\ (rf r = p \/ feq p (rf r) = true).
+
+(* the stored feature r is CLOSED in st: it has a definition, all merges of its declared inputs succeed, its parents are
+   exactly the merged input features (in some order of the declaration list), and each of them is stored *)
+Definition closed1 (defs : list odef) (st : list rnode) (r : rnode) : Prop :=
+  exists d, odef_of defs (f_name (rf r)) = Some d /\ rgrp r = od_grp d /\ rcfw r = od_cfw d /\
+    exists ins, Permutation ins (od_ins d) /\
+      Forall2 (fun i p => input_of defs (rf r) i = inl p) ins (rparents r) /\
+      forall p, In p (rparents r) -> holds st p.
+
+(* r descends from the feature f: it is f's node or the node of an input (of an input ...) of it *)
+Inductive desc (st : list rnode) : feat -> rnode -> Prop :=
+  | desc_self : forall f r, In r st -> rf r = f -> desc st f r
+  | desc_step : forall f r p r', desc st f r -> In p (rparents r) -> In r' st -> rf r' = p -> desc st f r'.
+
+(* no stored feature is equal (Feature.__eq__) to an earlier one: every instance has ONE node *)
+Inductive nodup_feq : list feat -> Prop :=
+  | nd_nil : nodup_feq []
+  | nd_snoc : forall l y, nodup_feq l -> (forall x, In x l -> feq y x = false) -> nodup_feq (l ++ [y]).
